@@ -234,16 +234,22 @@ class Interp:
     def is_read(self, e):
         return F.is_state_read(self.repo, None, e)
 
-    def eval_state_expr(self, e, s):
-        """Concrete evaluation of a flag expression for current flags s; None if not understood."""
+    def eval_state_expr(self, e, s, loc=()):
+        """Concrete evaluation of a flag expression for current flags s (and the flag values `loc` held by locals);
+        None if not understood."""
         if self.is_read(e):
             return s
+        if isinstance(e, ast.Name) and isinstance(e.ctx, ast.Load):
+            for k, v in loc:
+                if k == e.id:
+                    return v
+            return None
         if isinstance(e, ast.Call):
             d = dotted(e.func) or ""
             parts = d.split(".")
             if len(parts) >= 2 and parts[-2] == "ClientServiceState" and parts[-1].startswith("set_") and len(e.args) == 2:
                 flag = parts[-1][4:]
-                inner = self.eval_state_expr(e.args[0], s)
+                inner = self.eval_state_expr(e.args[0], s, loc)
                 if inner is None or flag not in self.fm.setter_bit:
                     return None
                 sb, cb = self.fm.setter_bit[flag]
@@ -251,7 +257,7 @@ class Interp:
                     return (inner | sb) if e.args[1].value else (inner & ~cb)
                 return None
         if isinstance(e, ast.BinOp):
-            l, r = self.eval_state_expr(e.left, s), self.eval_state_expr(e.right, s)
+            l, r = self.eval_state_expr(e.left, s, loc), self.eval_state_expr(e.right, s, loc)
             if l is None or r is None:
                 return None
             if isinstance(e.op, ast.BitOr):
@@ -259,7 +265,7 @@ class Interp:
             if isinstance(e.op, ast.BitAnd):
                 return l & r
         if isinstance(e, ast.UnaryOp) and isinstance(e.op, ast.Invert):
-            v = self.eval_state_expr(e.operand, s)
+            v = self.eval_state_expr(e.operand, s, loc)
             return None if v is None else ~v
         try:
             v = self.repo.const_value(self.fm.module, e)
@@ -294,7 +300,7 @@ class Interp:
                 res = frozenset(x for x in st if (x[2] == 0) == want_none)
                 return res or None
             return st
-        res = frozenset((p, s, w) for (p, s, w) in st if bool(s & flagbit) == truth)
+        res = frozenset(x for x in st if bool(x[1] & flagbit) == truth)
         return res or None
 
     @staticmethod
@@ -346,27 +352,47 @@ class Interp:
                     st = self.store(fi, node, stmt, stmt.value, st, resync, chain, rec)
                 if dotted(t) == "self.websocket":
                     isnone = isinstance(stmt.value, ast.Constant) and stmt.value.value is None
-                    st = frozenset((p, s, 0 if isnone else 1) for (p, s, w) in st)
+                    st = frozenset((p, s, 0 if isnone else 1, l) for (p, s, w, l) in st)
+        bound = set()
+        roots = [stmt] if node.kind in ("stmt", "return") else [getattr(stmt, "target", None)] + [it_.optional_vars for it_ in getattr(stmt, "items", [])]
+        for r_ in roots if node.kind in ("stmt", "for", "with") else []:
+            if r_ is None:
+                continue
+            for x in ast.walk(r_):
+                if isinstance(x, ast.Name) and isinstance(x.ctx, (ast.Store, ast.Del)):
+                    bound.add(x.id)
+        if bound:
+            single = stmt.targets[0].id if node.kind == "stmt" and isinstance(stmt, ast.Assign) and len(stmt.targets) == 1 and \
+                isinstance(stmt.targets[0], ast.Name) else None
+            new = set()
+            for (p, s, w, l) in st:
+                l2 = frozenset((k, v) for (k, v) in l if k not in bound)
+                if single is not None:
+                    v = self.eval_state_expr(stmt.value, s, l)
+                    if v is not None and not isinstance(stmt.value, ast.Constant):
+                        l2 = l2 | {(single, v & self.fm.width)}
+                new.add((p, s, w, l2))
+            st = frozenset(new)
         if node.has_await:
             # the echo handlers may run while this coroutine is suspended: they set the upload flags
             cu, du = self.fm.flag_bit[CU], self.fm.flag_bit[DU]
-            st = frozenset((p | x, s | x, w) for (p, s, w) in st for x in (0, cu, du, cu | du))
+            st = frozenset((p | x, s | x, w, l) for (p, s, w, l) in st for x in (0, cu, du, cu | du))
         return st
 
     def store(self, fi, node, where, expr, st, resync, chain, rec):
         out = set()
         unknown = False
-        for (p, s, w) in st:
-            v = self.eval_state_expr(expr, s)
+        for (p, s, w, l) in st:
+            v = self.eval_state_expr(expr, s, l)
             if v is None:
                 unknown = True
                 break
             v &= self.fm.width
-            out.add((v, v, w) if resync else (p, v, w))
+            out.add((v, v, w, l) if resync else (p, v, w, l))
         if rec is not None:
             rec.append((fi, node, ("flag_store", where, expr, resync, unknown), st, chain))
         if unknown:
-            return frozenset((p, u, w) for (p, s, w) in st for u in self.universe)
+            return frozenset((p, u, w, l) for (p, s, w, l) in st for u in self.universe)
         return frozenset(out)
 
     def call_transfer(self, fi, node, call, st, resync, chain, depth, rec):
@@ -383,17 +409,22 @@ class Interp:
             sub_resync = resync or target.name == RESYNC_FN
             if target.name == RESYNC_FN and getattr(self, "resync_model", None) is not None:
                 out = set()
-                for (p, s0, w) in st:
+                for (p, s0, w, l) in st:
                     for k in (0, 1, 2):
                         v = self.resync_model.run(k, s0)
-                        out.add((v, v, w))
+                        out.add((v, v, w, l))
                 if rec is not None:
                     rec.append((fi, node, ("flag_store", call, call, True, False), st, chain))
                 return frozenset(out)
-            ex = self.run(target, st, sub_resync, chain + (target.qual,), depth + 1)
-            if ex:
-                return ex
-            return st
+            # the callee has its own locals: analyse it once per valuation of the caller's flag-holding locals
+            groups = {}
+            for (p, s, w, l) in st:
+                groups.setdefault(l, set()).add((p, s, w, frozenset()))
+            res = set()
+            for l, part in sorted(groups.items(), key=lambda kv: sorted(kv[0])):
+                ex = self.run(target, frozenset(part), sub_resync, chain + (target.qual,), depth + 1)
+                res |= {(p, s, w, l) for (p, s, w, _l) in (ex or part)}
+            return frozenset(res)
         return st
 
 
@@ -630,7 +661,7 @@ def check(repo):
             raise AnalysisError("client handler vanished: %s" % hname)
         it = Interp(repo, fm, scanner)
         it.resync_model = resync_model if understood else None
-        entry = frozenset((v, v, w) for v in it.universe for w in (0, 1))
+        entry = frozenset((v, v, w, frozenset()) for v in it.universe for w in (0, 1))
         it.run(fi, entry)
         pred = _pred(fm, req_t, req_f)
         seen_fm, seen_send, seen_flags = set(), set(), set()
@@ -645,8 +676,8 @@ def check(repo):
                     continue
                 # which flags does it change?
                 changed = set()
-                for (p, s, w) in st:
-                    v = it.eval_state_expr(expr, s)
+                for (p, s, w, l) in st:
+                    v = it.eval_state_expr(expr, s, l)
                     if v is None:
                         continue
                     diff = (v ^ s) & fm.width
@@ -681,7 +712,7 @@ def check(repo):
                     continue
             else:
                 continue
-            bad = sorted({p for (p, s, w) in st if not pred(p)})
+            bad = sorted({p for (p, s, w, l) in st if not pred(p)})
             desc = {"operation": op, "in": f.qual, "effect": what, "line": getattr(node.stmt, "lineno", 0),
                     "states": len(st), "requires": {"true": req_t, "false": req_f}}
             if bad:
@@ -1057,11 +1088,16 @@ def _check_key_write_once(repo, r3, fm):
         # after the write, on every normal path: kc flag store then persistence
         cfg = cfg_of(fi.node)
         wn = cfg.node_of_expr(c)
+        # flag stores of the handler that set the key-created bit whatever the flags were (abstract interpretation of the
+        # handler, so a store through a temporary counts as well)
+        it = Interp(repo, fm, EffectScanner(repo))
+        it.run(fi, frozenset((v, v, w, frozenset()) for v in it.universe for w in (0, 1)))
         stores = set()
-        for n in _flag_store_nodes(cfg):
-            for cc in calls_in_order(cfg.nodes[n].stmt):
-                if (dotted(cc.func) or "").endswith("ClientServiceState.set_" + KC):
-                    stores.add(n)
+        for (f, node, e, st, chain) in it.records:
+            if f.key == fi.key and isinstance(e, tuple) and e[0] == "flag_store" and not e[3] and not e[4] and st:
+                vals = [it.eval_state_expr(e[2], s_, l_) for (_p, s_, _w, l_) in st]
+                if all(v is not None and (v & fm.flag_bit[KC]) for v in vals):
+                    stores.add(node.id)
         pers = _persist_nodes(cfg)
         for w in wn:
             r3.require(bool(stores) and cfg.must_pass(w, stores), fi, "key flag after key write",
